@@ -324,3 +324,18 @@ Proof.
   apply chunk_part_complete. intros i Hi Ht.
   apply (window_complete_strict v ci' (eff_t1 v (Some t1)) (eff_t2 o2) k d Hv); try assumption. rewrite Hid. exact Hf.
 Qed.
+
+(* serving the queue with every chunk fully readable is the plain serve step *)
+Lemma serve_seen_nil v st : serve_seen v st [] = serve v st.
+Proof.
+  unfold serve_seen, serve. f_equal.
+  assert (H : forall q ci,
+    fold_left (fun ci cid => if has_chunk (p_chunks st) cid
+                             then let d := chunk_data (p_chunks st) cid in
+                                  ci_rebuild (fix_zero v) ci cid (firstn (seen_of [] cid (length d)) d)
+                             else ci) q ci =
+    fold_left (fun ci cid => if has_chunk (p_chunks st) cid then ci_rebuild (fix_zero v) ci cid (chunk_data (p_chunks st) cid) else ci) q ci).
+  { induction q as [|c q IH]; intros ci; [reflexivity|]. cbn [fold_left seen_of]. rewrite firstn_all. apply IH. }
+  apply H.
+Qed.
+
